@@ -83,6 +83,9 @@ type verifWorld struct {
 
 	handler   string // handler being executed (assertion label suffix)
 	lockCheck bool   // C15: every access asserts the lock is write-held
+	sectionSeen    bool // C15 atomicity: critical section of the first access of the request
+	section        int
+	sectionChanges int // accesses made in another critical section than the first
 	mayFail   bool   // policy/controller results are solver-chosen (else success)
 	withLinux bool   // NRI messages carry their optional sub-messages
 	trace     []verifTraceEvent
@@ -112,8 +115,20 @@ func verifNewWorld() *verifWorld {
 }
 
 // access is called by every fake method.
+// verifSectionOf, when set (unit resmgr-atomic), tells which critical section
+// of the resmgr lock is running: the number of write acquisitions so far.
+var verifSectionOf func(m *resmgr) int
+
 func (w *verifWorld) access(mutating bool) {
 	w.accesses++
+	if verifSectionOf != nil && w.lockCheck {
+		s := verifSectionOf(w.m)
+		if !w.sectionSeen {
+			w.sectionSeen, w.section = true, s
+		} else if s != w.section {
+			w.sectionChanges++
+		}
+	}
 	if !w.lockCheck {
 		return
 	}
